@@ -45,6 +45,7 @@ Fixpoint as_scmd (fuel : nat) (s : sx) : option scmd :=
     | L [I 19%Z; b] => option_map SSetTypeAhead (as_bool b)
     | L [I 20%Z; h; b] => match as_nat h, as_bool b with Some h, Some b => Some (SHandlerAsk h b) | _, _ => None end
     | L [I 21%Z; h] => option_map SHandlerWait (as_nat h)
+    | L [I 24%Z] => Some SProcess
     | L [I 22%Z; c; k] => two SConnect c k
     | L [I 23%Z; c; I p] => option_map (fun c => SEmit c p) (as_nat c)
     | L [I 15%Z; k; t; e] =>
